@@ -146,5 +146,46 @@ package detect
 //@   loop 1
 //@     assumes 0 <= i && (forall a int :: {distributions[a]} 0 <= a && a < len(distributions) ==> i < len(distributions[a]))
 //@     invariant len(buf) == n && off(buf) == 0 && fresh(buf)
+//@     invariant done(wait) == done(wait)@pre + $i
 //@   loop 2
 //@     invariant len(buf) == n && off(buf) == 0 && fresh(buf)
+
+//@ func bootWorker
+//@   requires source != nil && n >= 0
+//@   requires (round == fn(Round15) && len(distributions) == 15) || (round == fn(Round12) && len(distributions) == 12)
+//@   requires len(counter) == len(distributions)
+//@   requires forall a int :: {distributions[a]} 0 <= a && a < len(distributions) ==> allocated(distributions[a]) && ref(distributions[a]) != ref(distributions)
+//@   modifies nothing
+//@   ensures r1 != nil
+//@   loop 1
+//@     invariant 0 <= i
+
+//@ func FactoryDetectFast
+//@   requires source != nil
+//@   modifies nothing
+//@   loop 1
+//@     invariant 0 <= i && i <= s
+//@   loop 2
+//@     invariant forall a int :: {counters[a]} 0 <= a && a < $i ==> counters[a] >= t
+//@   loop 3
+//@     invariant 0 <= i
+
+//@ func PowerOnDetectFast
+//@   requires source != nil
+//@   modifies nothing
+//@   loop 1
+//@     invariant 0 <= i && i <= s
+//@   loop 2
+//@     invariant forall a int :: {counters[a]} 0 <= a && a < $i ==> counters[a] >= t
+//@   loop 3
+//@     invariant 0 <= i
+
+//@ func PeriodDetectFast
+//@   requires source != nil
+//@   modifies nothing
+//@   loop 1
+//@     invariant 0 <= i && i <= s
+//@   loop 2
+//@     invariant forall a int :: {counters[a]} 0 <= a && a < $i ==> counters[a] >= t
+//@   loop 3
+//@     invariant 0 <= i
